@@ -44,6 +44,8 @@ class CSA:
     def __init__(self, syn, optable, operands_decl, scope_variants=('Local', 'Global'), file='src/compiler.rs', ty='Compiler'):
         self.methods = syn.methods(file, ty)
         self.free_fns = {it['name']: it for it in syn.all_items(file) if it['k'] == 'fn'}
+        # constant tables of the module (`const FUSED: [(Operator, OpCode); 11] = [..]`): a name stands for its initialiser
+        self.consts = {it['name']: it['expr'] for it in syn.all_items(file) if it['k'] == 'const' and it.get('expr') is not None}
         self.m = Machine(optable, operands_decl)
         self.scope_variants = list(scope_variants)
         self.summaries = {}       # method -> {key: SummaryExit}
@@ -358,6 +360,14 @@ class CSA:
                 return [(st, env, 'v', ('placeholder',))]
             if p[0] == 'None':
                 return [(st, env, 'v', ('opt', 'none'))]
+            if p[0] in self.consts and self.depth < 8:
+                # a constant of the module: its initialiser is evaluated in place (it can name nothing but other constants)
+                self.depth += 1
+                try:
+                    return [(st, env, 'v', v) for _s, _e, kind, v in self.ev(self.consts[p[0]], st.clone(), {}) if kind == 'v'][:1] or \
+                        [(st, env, 'v', ('unk', p[0]))]
+                finally:
+                    self.depth -= 1
             raise Undecided('CSA: unknown name `%s` at line %s' % (p[0], e.get('line')))
         if p[-2] == 'OpCode':
             return [(st, env, 'v', ('opcode', p[-1]))]
@@ -396,6 +406,9 @@ class CSA:
 
     def ev_tuple(self, e, st, env):
         return self.seq(e['elems'], st, env, lambda s, en, vals: [(s, en, 'v', ('tuple', tuple(vals)) if vals else ('unit',))])
+
+    def ev_array(self, e, st, env):
+        return self.seq(e['elems'], st, env, lambda s, en, vals: [(s, en, 'v', ('itemlist', list(vals), None))])
 
     def ev_macro(self, e, st, env):
         name = e['name'].split('::')[-1]
@@ -474,8 +487,20 @@ class CSA:
                 if len(others) == 1:
                     s_f.sym_scope[a[1]] = others[0]
                 return [(True, s_t), (False, s_f)]
-        if l[0] in ('int', 'bool', 'str', 'opcode', 'scope') and l[0] == r[0]:
+        if l[0] in ('int', 'bool', 'str', 'opcode', 'scope', 'operator') and l[0] == r[0]:
             return [(l[1] == r[1], st)]
+        for a, b in ((l, r), (r, l)):
+            if a[0] == 'operator' and b[0] == 'ast':
+                # an operator of the tree compared with a constant one: decided when the path already fixed it, otherwise both
+                known = st.facts.get(('variant', b[1]))
+                if isinstance(known, tuple) and not isinstance(known, frozenset):
+                    return [(known == ('Operator', a[1]), st)]
+                if isinstance(known, frozenset):
+                    if ('Operator', a[1]) in known or a[1] in known:
+                        return [(False, st)]
+                s_t = st.clone()
+                s_t.facts[('variant', b[1])] = ('Operator', a[1])
+                return [(True, s_t), (False, st.clone())]
         return [(None, st)]
 
     def truth(self, v, st):
@@ -657,6 +682,10 @@ class CSA:
                         out += rec(i + 1, s1, e1)
                 return out
             if s['k'] == 's_item':
+                it_ = s.get('item') or {}
+                if it_.get('k') == 'const' and it_.get('expr') is not None and it_.get('name'):
+                    # a constant local to the function: visible in the whole block, evaluated where it is used
+                    self.consts.setdefault(it_['name'], it_['expr'])
                 return rec(i + 1, st, env)
             raise Undecided('CSA: statement kind %s' % s['k'])
         res = rec(0, st, env)
@@ -1092,6 +1121,32 @@ class CSA:
             if meth == 'unwrap_or_else':
                 return self.apply_closure(a[0], [] if r[0] == 'opt' else [r[2]], s, en)
             return V(('unk', 'default'))
+        if meth in ('find', 'find_map', 'any') and r[0] == 'itemlist' and r[2] is None and a and a[0][0] == 'closure':
+            # a search through a constant table: the predicate is asked item by item, the first `yes` ends the search
+            def search(i, s_):
+                if i == len(r[1]):
+                    return [(s_, en, 'v', ('bool', False) if meth == 'any' else ('opt', 'none'))]
+                outs = []
+                for s3, e3, k3, v3 in self.apply_closure(a[0], [r[1][i]], s_, en):
+                    if meth == 'find_map':
+                        if v3[0] == 'opt':
+                            if v3[1] == 'some':
+                                outs.append((s3, en, 'v', v3))
+                            else:
+                                outs += search(i + 1, s3)
+                        else:
+                            raise Undecided('CSA: find_map() closure answered %s' % (v3,))
+                    elif v3[0] == 'bool':
+                        if v3[1]:
+                            outs.append((s3, en, 'v', ('bool', True) if meth == 'any' else ('opt', 'some', r[1][i])))
+                        else:
+                            outs += search(i + 1, s3)
+                    else:
+                        raise Undecided('CSA: %s() predicate answered %s' % (meth, v3))
+                return outs
+            return search(0, s)
+        if meth in ('copied', 'cloned') and r[0] in ('opt', 'itemlist'):
+            return V(r)
         if meth in ('into_iter', 'iter', 'drain') and r[0] in ('breaklist_val', 'itemlist'):
             return V(r)
         if meth == 'chain' and a and r[0] in ('itemlist', 'breaklist_val') and a[0][0] in ('itemlist', 'breaklist_val'):
@@ -1181,6 +1236,8 @@ class CSA:
             s1 = s.clone()
             s1.facts[('symname', sid)] = a[0]
             s1.facts[('symhow', sid)] = 'resolve'
+            if a[0][0] == 'ast':
+                s1.facts[('resolved', a[0][1])] = True
             s2 = s.clone()
             s2.trace.append('unresolved %s' % (a[0][1] if a[0][0] == 'ast' else '?'))
             return [(s1, en, 'v', ('opt', 'some', ('sym', sid))), (s2, en, 'v', ('opt', 'none'))]
